@@ -6,6 +6,7 @@ import (
 	"fmt"
 	"math/big"
 	"math/rand"
+	"os"
 	. "zharness/hz"
 
 	"github.com/zenon-network/go-zenon/chain"
@@ -188,6 +189,16 @@ func produceHistory(a *Node, rng *rand.Rand, out *Out, steps int, plan *depPlan)
 		}
 		// blocks whose verdict depends on the ledger of the momentum they acknowledge (dependent.go)
 		plan.episode(a, rng, out, s)
+	}
+	// the wallets collect what is still waiting for them (up to 3 receives, one momentum)
+	got := 0
+	for _, sb := range pending {
+		if h, _ := a.Ch.GetFrontierMomentumStore().GetBlockConfirmationHeight(sb.Hash); h != 0 && got < 3 {
+			if rb, _ := insertValid(a, &nom.AccountBlock{BlockType: nom.BlockTypeUserReceive}, sb); rb != nil {
+				got++
+				out.Count("history:receive")
+			}
+		}
 	}
 	a.Momentum()
 	a.Momentum()
@@ -432,12 +443,13 @@ func runReplay(rng *rand.Rand, n int, out *Out, _ []string) {
 	for i := 0; i < 1+n/60; i++ {
 		longHistory(rng, out)
 	}
+	fmt.Fprintf(os.Stderr, "pool-differs family: %v (forge %v) %v\n", poolSpent, poolForge, poolByTag)
 }
 
 func replayHistory(rng *rand.Rand, out *Out, first, withSpork bool) {
 	a := NewNode()
 	defer a.Stop()
-	steps := 8 + rng.Intn(20) // plus 3..4 episodes of 4..10 momentums each (dependent.go)
+	steps := 8 + rng.Intn(18) // plus 3..4 episodes of 4..10 momentums each (dependent.go)
 	plan := newDepPlan(rng, steps, withSpork)
 	defer plan.restoreSpork()
 	produceHistory(a, rng, out, steps, plan)
@@ -526,6 +538,9 @@ func replayHistory(rng *rand.Rand, out *Out, first, withSpork bool) {
 	}
 	// directed schedules for the blocks whose verdict depends on the acknowledged momentum's ledger
 	dependentSchedules(rng, out, chainD, chainT, refDump, fr, plan)
+	// receivers whose pool holds blocks the producer's chain does not contain: competing versions of user blocks (two
+	// receives of one send, two sends at one height), blocks on top of them, blocks the producer never saw (poolvar.go)
+	poolSchedules(rng, out, chainD, chainT, refDump, fr, "short-history", 10, 3, 2, rng.Intn(3) == 0)
 	// answers from historical views: the live producer (warm caches) vs a receiver after a restart (cold)
 	cold := rs[1].b.Reopen()
 	rs[1].b = cold
